@@ -12,7 +12,7 @@ RULE = ('random state trees (shapes rand/chain/bushy/two/comb/flat, up to 40 sta
 CASES = {'quick': 30000, 'thorough': 600000}
 BUDGET = {'quick': 150, 'thorough': 300}
 REQUIRE = {'transitions': 1000, 'topo_a': 1, 'topo_b': 1, 'topo_c': 1, 'topo_d': 1, 'topo_e': 1,
-           'topo_f': 1, 'topo_g': 1, 'topo_h': 1, 'init_chain_after_deep_target': 1, 'state_queries_made_by_actions': 20000, 'runs_on_instrumented_or_queued_hosts': 3000, 'container_and_component_runs': 3000, 'steps_in_which_both_charts_made_a_transition': 2000}
+           'topo_f': 1, 'topo_g': 1, 'topo_h': 1, 'init_chain_after_deep_target': 1, 'state_queries_made_by_actions': 20000, 'runs_on_instrumented_or_queued_hosts': 1666, 'container_and_component_runs': 1666, 'steps_in_which_both_charts_made_a_transition': 2000}
 ASSUME = ['generated charts are well-formed: handlers return a status, parents form a tree, inits target strict descendants',
           'the reference model in vt/chartgen.py is the reading of the statement (cross-checked three ways against plain and instrumented hosts)']
 PROPS = ('C01',)
